@@ -9,12 +9,14 @@ mod ops_edits;
 mod wire;
 mod ops_apply;
 mod ops_case;
+mod ops_variant;
 
 /// every `ops_*.rs` owns some operations: `dispatch(fields) -> Option<String>` (None = not mine)
 const HANDLERS: &[fn(&[&str]) -> Option<String>] = &[
     ops_edits::dispatch,
     ops_apply::dispatch,
     ops_case::dispatch,
+    ops_variant::dispatch,
 ];
 
 fn dispatch(fields: &[&str]) -> String {
